@@ -86,7 +86,7 @@ func runSolver(ctx context.Context, s SolverCfg, file string, opts solveOpts) (s
 }
 
 func solveOne(o *Obligation, opts solveOpts) {
-	if o.Status == "unbound" {
+	if o.Status == "unbound" || (o.Status == "unsat" && o.Kind == "site-enum") {
 		return
 	}
 	file := filepath.Join(opts.workdir, sanitizeFile(o.Name)+".smt2")
